@@ -6,7 +6,7 @@ use insim::net::Codec;
 use insim::Packet;
 
 fn encode(compressed: bool, p: &Packet) -> Option<Vec<u8>> {
-    let c = Codec::new(mode_of(compressed));
+    #[allow(unused_mut)] let mut c = Codec::new(mode_of(compressed));
     let p = p.clone();
     guard(std::panic::AssertUnwindSafe(move || c.encode(&p).ok().map(|b| b.to_vec()))).flatten()
 }
@@ -22,7 +22,8 @@ pub fn write_case(ctx: &mut Ctx, fl: Flavour, compressed: bool, frames: &[Vec<u8
     let packets_n = packets.len();
     let (r, results) = run_writes(fl, compressed, packets, wscript.clone());
     let fr = if encoded.is_empty() { "-".to_string() } else { encoded.iter().map(|f| hex(f)).collect::<Vec<_>>().join("+") };
-    let op = format!("framed.write {} {} {} {}", fl.tok(), mode_tok(compressed), fr, wscript_text(&wscript));
+    let slow = crate::transport::SLOW.with(|x| x.get());
+    let op = format!("framed.write {} {} {} {}{}", fl.tok(), mode_tok(compressed), fr, wscript_text(&wscript), if slow > 0 { format!(" slow={}", slow) } else { String::new() });
     let res = format!("{} | out={}", if results.is_empty() { "-".to_string() } else { results.join(",") }, hex(&r.out));
     ctx.case(&op, &res);
     // oracle
@@ -88,7 +89,7 @@ pub fn refused_case(ctx: &mut Ctx, fl: Flavour, compressed: bool, which: usize, 
     }
 }
 
-fn refused_seq(which: usize) -> Vec<Packet> {
+pub fn refused_seq(which: usize) -> Vec<Packet> {
     use insim::insim::*;
     let tiny = |r: u8| -> Packet { Tiny { reqi: insim::identifiers::RequestId(r), subt: TinyType::Ping }.into() };
     let refused: Packet = match which {
@@ -105,9 +106,12 @@ pub fn replay_line(ctx: &mut Ctx, l: &str) -> bool {
     match w.as_slice() {
         ["c06.refused", fl, m, which, accept] => { refused_case(ctx, if *fl == "tokio" { Flavour::Tokio } else { Flavour::Blocking }, *m == "c", which.parse().unwrap_or(0), accept.parse().unwrap_or(0)); true },
         ["ws.backpressure", n] => { crate::c20::backpressure_case_p(ctx, "c06", n.parse().unwrap_or(3000)); true },
-        ["framed.write", fl, m, frames, ws] => {
+        ["framed.write", fl, m, frames, ws] | ["framed.write", fl, m, frames, ws, _] => {
             let frames: Vec<Vec<u8>> = if *frames == "-" { vec![] } else { frames.split('+').map(unhex).collect() };
+            let slow: u64 = w.get(5).and_then(|t| t.strip_prefix("slow=")).and_then(|n| n.parse().ok()).unwrap_or(0);
+            crate::transport::SLOW.with(|c| c.set(slow));
             write_case(ctx, if *fl == "tokio" { Flavour::Tokio } else { Flavour::Blocking }, *m == "c", &frames, parse_wevents(ws));
+            crate::transport::SLOW.with(|c| c.set(0));
             true
         },
         _ => false,
@@ -116,6 +120,20 @@ pub fn replay_line(ctx: &mut Ctx, l: &str) -> bool {
 
 pub fn generate(ctx: &mut Ctx) {
     let quick = ctx.quick();
+    // a slow peer: one byte accepted every two (virtual) seconds, for frames of 4 to 68 bytes — no single wait is long, the
+    // frame as a whole takes minutes; it still arrives whole, and so does the next one
+    for compressed in [true, false] {
+        for fl in [Flavour::Blocking, Flavour::Tokio] {
+            let mut mst = vec![0u8; 68]; mst[0] = size_byte(compressed, 68); mst[1] = 13; for (i, b) in b"slow but steady".iter().enumerate() { mst[4 + i] = *b; }
+            let tiny = vec![size_byte(compressed, 4), 3, 1, 3];
+            let mut ws = vec![];
+            for _ in 0..80 { ws.push(WEv::Pending); ws.push(WEv::Accept(1)); }
+            crate::transport::SLOW.with(|c| c.set(2));
+            write_case(ctx, fl, compressed, &[mst.clone(), tiny.clone()], ws.clone());
+            write_case(ctx, fl, compressed, &[tiny.clone(), mst.clone(), tiny.clone()], ws);
+            crate::transport::SLOW.with(|c| c.set(0));
+        }
+    }
     // a transport that really is "not ready" for a while: the WebSocket adaptor over a loopback socket with small buffers and a
     // peer that does not read for 400 ms — every written packet arrives once, whole, in call order
     crate::c20::backpressure_case_p(ctx, "c06", if quick { 3000 } else { 20000 });
